@@ -708,6 +708,7 @@ func (lb *LoadBalancer) proxyRequest(backend *Backend, w http.ResponseWriter, r 
 	rw := &responseWriter{
 		ResponseWriter: w,
 		statusCode:     http.StatusOK, // Default status code
+		preset:         w.Header().Clone(),
 	}
 
 	// Release the connection and record the outcome even when the proxy aborts the
@@ -791,11 +792,32 @@ func (lb *LoadBalancer) handlePassiveHealthCheck(backend *Backend, statusCode in
 type responseWriter struct {
 	http.ResponseWriter
 	statusCode int
+	preset     http.Header // response headers set before proxying (request/trace IDs, plugin headers)
+	emptied    bool        // an interim response was relayed: the proxy has emptied the header map
+}
+
+// Header returns the response header map. httputil.ReverseProxy empties that map after it has
+// relayed an interim (1xx) response, which also drops what the layers in front of the balancer
+// had set; put those entries back before the final response headers are added
+func (rw *responseWriter) Header() http.Header {
+	h := rw.ResponseWriter.Header()
+	if rw.emptied {
+		rw.emptied = false
+		for k, v := range rw.preset {
+			if _, ok := h[k]; !ok {
+				h[k] = append([]string(nil), v...)
+			}
+		}
+	}
+	return h
 }
 
 // WriteHeader captures the status code
 func (rw *responseWriter) WriteHeader(statusCode int) {
 	rw.statusCode = statusCode
+	if statusCode < http.StatusOK && statusCode != http.StatusSwitchingProtocols {
+		rw.emptied = true
+	}
 	rw.ResponseWriter.WriteHeader(statusCode)
 }
 
